@@ -28,7 +28,7 @@ pub fn prop() -> Prop {
                every lookup result must be in the allowed set of a history-based reference (most specific live claim, one sweep of slack; or a still-valid earlier \
                decision); canonical state = table dump with relative expiries + reference history ages. Prefix matching: all 256 bases x prefixes 0..=20 x all 256 \
                addresses (8-bit universe), 16-bit universe (boundary addresses quick / all thorough), one-bit-difference addresses for 4/6/8/16-byte ranges x \
-               prefixes 0..=255. Node level: unknown destination in router/switch/hub meshes. distinct_nontrivial = canonical states + matching cases",
+               prefixes 0..=255. Plus a 7-event narrow alphabet to depth 11 / 16 and a foreign-family lookup address. Node level: unknown destination in all 8 mode x device combinations; learned decisions end with a timed-out peer. distinct_nontrivial = canonical states + matching cases",
         run,
         replay,
     }
